@@ -19,6 +19,8 @@ Line-protocol driver for C07. One request per line, all arguments are ints.
   GS <GA arguments> <qmarks> <tlabels>     → `QueryIsomorphism.get_mapping(_cython=False)` incl. the stereo post-filter:
                                              `ok … n=<k> : m | …` or `raise <PyErr>`; `pre=<k>` = mappings before the post-filter
   FM <lenSelf> <lenOther> L(so) L(oo) <eq> → `get_fast_mapping`: `ok none` | `ok some : m`
+  IC <GA arguments> np (u x)^np            → proved checker `isoCheck` on a REAL `get_fast_mapping` output + executable membership in
+                                             the model's `get_mapping` result: `ok chk=<0|1> mem=<0|1>`
   MS <af> <k> (<hasfm> [np (u x)^np] na (np (u x)^np)^na)^k → `match_stereo=True` branch of `MoleculeIsomorphism.get_mapping`
 
 graph  := n (id deg nbr*)^n
@@ -261,6 +263,19 @@ def handleFM : P String := do
   | none => return "ok none"
   | some d => return s!"ok some n=1 : {showDict d}"
 
+def handleIC : P String := do
+  let (p?, _) ← pGAProblem
+  let d ← pDict
+  match p? with
+  | none => return "malformed not-wf"
+  | some p =>
+    let mem := match compileQuery p.q, isoGetMapping p with
+      | some (comps, _), some r =>
+        let keys := comps.flatten.map (·.front)
+        r.contains (keys.zip (keys.map fun u => (d.lookup u).getD 0))
+      | _, _ => false
+    return s!"ok chk={b01 (isoCheck p d)} mem={b01 mem}"
+
 def handleMS : P String := do
   let af ← pNat
   let k ← pNat
@@ -331,6 +346,7 @@ def handle (line : String) : String :=
       | "GS" => run handleGS xs
       | "FM" => run handleFM xs
       | "MS" => run handleMS xs
+      | "IC" => run handleIC xs
       | "AM" => run handleAM xs
       | "LP" => run handleLP xs
       | "PM" => run handlePM xs
